@@ -272,6 +272,10 @@ func (r *c16Runner) populate() {
 // resetAll wipes the DMaps of every member: a vector must not meet what earlier vectors left on the other member
 // (a key that an earlier DM.PUT created there makes "DM.LOCK d k 999999" wait, as it should, for 999999 s)
 func (r *c16Runner) resetAll() {
+	if len(r.all) == 0 {
+		r.m.db.dmap.VerifResetDMaps()
+		return
+	}
 	for _, mm := range r.all {
 		if mm.alive {
 			mm.db.dmap.VerifResetDMaps()
